@@ -319,7 +319,7 @@ Lemma baseline_membership : forall p f el cx fr n,
   (In n (dq_of (dataclass p f Baseline el cx fr)) <->
    violates_baseline f el fr n \/ (n = OffcycleReads /\ offcycle_dq p f cx = true)).
 Proof.
-  intros p f el cx fr n Hok Hobs. pose proof (params_ok_facts p Hok) as F. destruct F.
+  intros p f el cx fr n Hok Hobs. pose proof (params_ok_facts p Hok) as F. destruct F as [pf_max0 pf_min0 pf_cn0 pf_cd0 pf_tn0 pf_td0 pf_base0 pf_rep0].
   rewrite (in_dq_of_dataclass p f Baseline el cx fr n (or_intror Hobs)).
   cbn [is_reporting_flag sequence_of electric_flag].
   assert (Eel : electric_flag f Baseline el = el) by (destruct f; reflexivity).
@@ -383,7 +383,7 @@ Lemma reporting_membership : forall p f el cx fr n,
   (In n (dq_of (dataclass p f Reporting el cx fr)) <->
    violates_reporting f fr n \/ (n = OffcycleReads /\ offcycle_dq p f cx = true)).
 Proof.
-  intros p f el cx fr n Hok Hflag Hus. pose proof (params_ok_facts p Hok) as F. destruct F.
+  intros p f el cx fr n Hok Hflag Hus. pose proof (params_ok_facts p Hok) as F. destruct F as [pf_max0 pf_min0 pf_cn0 pf_cd0 pf_tn0 pf_td0 pf_base0 pf_rep0].
   assert (Hrep : is_reporting_flag p f Reporting = true) by exact Hflag.
   rewrite (in_dq_of_dataclass p f Reporting el cx fr n (or_introl Hrep)).
   rewrite Hrep. cbn [sequence_of].
@@ -453,22 +453,16 @@ Qed.
 
 (* ------------------------------------------------------------------ the code as it is now (regenerated parameters) *)
 
-Lemma code_params_published : params_ok code_params = true.
-Proof. vm_compute. reflexivity. Qed.
-
-Lemma code_min_length : code_min_len = 329 /\ gen_max_baseline_length = 365.
-Proof. vm_compute. split; reflexivity. Qed.
-
-Lemma baseline_dq_exact_code_l : forall f el cx fr, f_has_obs fr = true ->
+Lemma baseline_dq_exact_code_l : params_ok code_params = true -> forall f el cx fr, f_has_obs fr = true ->
   exists dq ws, dataclass code_params f Baseline el cx fr = Accepted dq ws /\ NoDup dq /\
     forall n, In n dq <->
       violates_baseline f el fr n \/ (n = OffcycleReads /\ f = Billing /\ x_offcycle cx = true /\ gen_offcycle_dq = true).
 Proof.
-  intros f el cx fr Hobs.
+  intros Hpub f el cx fr Hobs.
   destruct (dataclass_accepts code_params f Baseline el cx fr (or_intror Hobs)) as [dq [ws E]].
   exists dq, ws. split; [exact E|].
   pose proof (nodup_dq_of_dataclass code_params f Baseline el cx fr) as Hnd.
-  pose proof (fun n => baseline_membership code_params f el cx fr n code_params_published Hobs) as Hm.
+  pose proof (fun n => baseline_membership code_params f el cx fr n Hpub Hobs) as Hm.
   rewrite E in Hnd, Hm. cbn [dq_of] in Hnd, Hm. split; [exact Hnd|].
   intro n. rewrite Hm. apply or_iff_compat_l. unfold offcycle_dq. cbn [p_offcycle_dq code_params].
   rewrite !andb_true_iff. split.
@@ -476,17 +470,17 @@ Proof.
   - intros [-> [-> [Hx Hg]]]. split; [reflexivity|]. rewrite Hx, Hg. simpl. tauto.
 Qed.
 
-Lemma reporting_dq_exact_code_l : forall f el cx fr, gen_reporting_flag f = true -> usage_irrelevant fr ->
+Lemma reporting_dq_exact_code_l : params_ok code_params = true -> forall f el cx fr, gen_reporting_flag f = true -> usage_irrelevant fr ->
   exists dq ws, dataclass code_params f Reporting el cx fr = Accepted dq ws /\ NoDup dq /\
     forall n, In n dq <->
       violates_reporting f fr n \/ (n = OffcycleReads /\ f = Billing /\ x_offcycle cx = true /\ gen_offcycle_dq = true).
 Proof.
-  intros f el cx fr Hflag Hus.
+  intros Hpub f el cx fr Hflag Hus.
   assert (Hf : p_reporting_flag code_params f = true) by exact Hflag.
   destruct (dataclass_accepts code_params f Reporting el cx fr (or_introl Hf)) as [dq [ws E]].
   exists dq, ws. split; [exact E|].
   pose proof (nodup_dq_of_dataclass code_params f Reporting el cx fr) as Hnd.
-  pose proof (fun n => reporting_membership code_params f el cx fr n code_params_published Hf Hus) as Hm.
+  pose proof (fun n => reporting_membership code_params f el cx fr n Hpub Hf Hus) as Hm.
   rewrite E in Hnd, Hm. cbn [dq_of] in Hnd, Hm. split; [exact Hnd|].
   intro n. rewrite Hm. apply or_iff_compat_l. unfold offcycle_dq. cbn [p_offcycle_dq code_params].
   rewrite !andb_true_iff. split.
@@ -579,37 +573,36 @@ Proof.
   unfold frac_lt, frac_gt. split; assumption.
 Qed.
 
-Lemma daily_coverage_table : threshold_table THRESHOLD_BOUND gen_min_fraction_daily_coverage = true.
-Proof. vm_cast_no_check (eq_refl true). Qed.
-
-Lemma hourly_coverage_table : threshold_table THRESHOLD_BOUND gen_min_fraction_hourly_temperature_coverage = true.
-Proof. vm_cast_no_check (eq_refl true). Qed.
-
 Lemma threshold_bound_value : Z.of_nat THRESHOLD_BOUND = 1000.
 Proof. vm_compute. reflexivity. Qed.
 
-Lemma threshold_exact_l : forall n d, 0 <= n <= 1000 -> 1 <= d <= 1000 ->
-  frac_lt gen_min_fraction_daily_coverage n d = (10 * n <? 9 * d) /\
-  frac_gt gen_min_fraction_hourly_temperature_coverage n d = (9 * d <? 10 * n).
+(* for any two binary64 constants that pass the table (the regenerated ones are checked in Properties/C10.v) *)
+Lemma threshold_exact_l : forall thr_days thr_hours,
+  threshold_table THRESHOLD_BOUND thr_days = true -> threshold_table THRESHOLD_BOUND thr_hours = true ->
+  forall n d, 0 <= n <= 1000 -> 1 <= d <= 1000 ->
+  frac_lt thr_days n d = (10 * n <? 9 * d) /\ frac_gt thr_hours n d = (9 * d <? 10 * n).
 Proof.
-  intros n d Hn Hd. rewrite <- threshold_bound_value in Hn, Hd. split.
-  - exact (proj1 (threshold_table_sound THRESHOLD_BOUND _ daily_coverage_table n d Hn Hd)).
-  - exact (proj2 (threshold_table_sound THRESHOLD_BOUND _ hourly_coverage_table n d Hn Hd)).
+  intros t1 t2 H1 H2 n d Hn Hd. rewrite <- threshold_bound_value in Hn, Hd. split.
+  - exact (proj1 (threshold_table_sound THRESHOLD_BOUND _ H1 n d Hn Hd)).
+  - exact (proj2 (threshold_table_sound THRESHOLD_BOUND _ H2 n d Hn Hd)).
 Qed.
 
 (* the integer comparison of the model is the binary64 comparison of the code *)
-Lemma under_is_float_l : forall n d, 0 <= n <= 1000 -> 1 <= d <= 1000 ->
-  under code_params n (Some d) = frac_lt gen_min_fraction_daily_coverage n d.
+Lemma under_is_float_l : forall p thr, p_cov_num p = 9 -> p_cov_den p = 10 ->
+  threshold_table THRESHOLD_BOUND thr = true ->
+  forall n d, 0 <= n <= 1000 -> 1 <= d <= 1000 -> under p n (Some d) = frac_lt thr n d.
 Proof.
-  intros n d Hn Hd. destruct (threshold_exact_l n d Hn Hd) as [E _]. rewrite E.
-  unfold under. cbn [p_cov_num p_cov_den code_params].
+  intros p thr Hn9 Hd10 Ht n d Hn Hd. destruct (threshold_exact_l thr thr Ht Ht n d Hn Hd) as [E _]. rewrite E.
+  unfold under. rewrite Hn9, Hd10.
   destruct (0 <? d) eqn:Ed; [reflexivity|apply Z.ltb_ge in Ed; lia].
 Qed.
 
-Lemma temp_valid_is_float_l : forall a b, 0 <= a -> 0 <= b -> 1 <= a + b <= 1000 ->
-  temp_valid90 (mkrow 0 1 None true (Some (a, b)) false true) = frac_gt gen_min_fraction_hourly_temperature_coverage a (a + b).
+Lemma temp_valid_is_float_l : forall thr, threshold_table THRESHOLD_BOUND thr = true ->
+  forall r a b, r_cov r = Some (a, b) -> 0 <= a -> 0 <= b -> 1 <= a + b <= 1000 ->
+  temp_valid90 r = frac_gt thr a (a + b).
 Proof.
-  intros a b Ha Hb Hab. destruct (threshold_exact_l a (a + b) ltac:(lia) Hab) as [_ E]. rewrite E. reflexivity.
+  intros thr Ht r a b Hr Ha Hb Hab. destruct (threshold_exact_l thr thr Ht Ht a (a + b) ltac:(lia) Hab) as [_ E].
+  rewrite E. unfold temp_valid90. rewrite Hr. reflexivity.
 Qed.
 
 (* ------------------------------------------------------------------ the magnitude of usage never changes the verdict *)
@@ -738,6 +731,89 @@ Proof.
   cbn [fst] in E. cbn [dq_of]. rewrite E. reflexivity.
 Qed.
 
+(* ------------------------------------------------------------------ the code where it leaves the statement, characterised *)
+
+Lemma hourly_reporting_as_coded_l : forall p el cx fr n,
+  params_ok p = true -> p_reporting_flag p Hourly = false -> f_has_obs fr = true ->
+  (In n (dq_of (dataclass p Hourly Reporting el cx fr)) <-> violates_reporting_as_baseline fr n).
+Proof.
+  intros p el cx fr n Hok Hflag Hobs. pose proof (params_ok_facts p Hok) as F. destruct F as [pf_max0 pf_min0 pf_cn0 pf_cd0 pf_tn0 pf_td0 pf_base0 pf_rep0].
+  assert (Hrep : is_reporting_flag p Hourly Reporting = false) by exact Hflag.
+  rewrite (in_dq_of_dataclass p Hourly Reporting el cx fr n (or_intror Hobs)).
+  rewrite Hrep. cbn [sequence_of].
+  rewrite (compute_counts_baseline p fr pf_tn0 pf_td0).
+  assert (Hpos : forall d, span_of (complete fr) (f_rows fr) = Some d -> 1 <= d) by (intros d; apply span_of_pos).
+  assert (Hoff : offcycle_dq p Hourly cx = false) by reflexivity.
+  rewrite Hoff.
+  split.
+  - intros [[k [Ho [Hin Hc]]]|[_ H]]; [|discriminate H]. apply pf_rep0 in Hin.
+    unfold violates_reporting_as_baseline.
+    destruct n; simpl in Ho; try discriminate Ho; injection Ho as <-;
+      cbn [check_cond c_total c_valid c_meter c_temp negb andb] in Hc;
+      try (exfalso; simpl in Hin; intuition discriminate).
+    + apply negb_true_iff in Hc. apply span_none_iff.
+      destruct (span_of (complete fr) (f_rows fr)); [discriminate Hc|reflexivity].
+    + apply (under_spec p _ _ pf_cn0 pf_cd0 Hpos). exact Hc.
+    + apply (under_spec p _ _ pf_cn0 pf_cd0 Hpos). exact Hc.
+    + apply (monthly_bad_spec p _ _ pf_cn0 pf_cd0). exact Hc.
+    + apply andb_true_iff in Hc. destruct Hc as [Hg Hm]. split; [exact Hg|].
+      apply (monthly_bad_spec p _ _ pf_cn0 pf_cd0). exact Hm.
+  - intro V. left. unfold violates_reporting_as_baseline in V.
+    destruct n; cbn [check_of]; try contradiction.
+    + exists CNoData. split; [reflexivity|]. split; [apply pf_rep0; simpl; tauto|].
+      cbn [check_cond c_total]. apply span_none_iff in V. rewrite V. reflexivity.
+    + exists CValidDays. split; [reflexivity|]. split; [apply pf_rep0; simpl; tauto|].
+      cbn [check_cond c_total c_valid]. apply (under_spec p _ _ pf_cn0 pf_cd0 Hpos). exact V.
+    + exists CValidTemp. split; [reflexivity|]. split; [apply pf_rep0; simpl; tauto|].
+      cbn [check_cond c_total c_temp]. apply (under_spec p _ _ pf_cn0 pf_cd0 Hpos). exact V.
+    + exists CMonthlyTemp. split; [reflexivity|]. split; [apply pf_rep0; simpl; tauto|].
+      cbn [check_cond]. apply (monthly_bad_spec p _ _ pf_cn0 pf_cd0). exact V.
+    + destruct V as [Hg V]. exists CMonthlyGhi. split; [reflexivity|]. split; [apply pf_rep0; simpl; tauto|].
+      cbn [check_cond]. rewrite Hg. cbn [andb]. apply (monthly_bad_spec p _ _ pf_cn0 pf_cd0). exact V.
+Qed.
+
+
+Lemma reporting_as_coded_l : forall p f el cx fr n,
+  params_ok p = true -> p_reporting_flag p f = true ->
+  (In n (dq_of (dataclass p f Reporting el cx fr)) <->
+   violates_reporting_span_over_usage f fr n \/ (n = OffcycleReads /\ offcycle_dq p f cx = true)).
+Proof.
+  intros p f el cx fr n Hok Hflag. pose proof (params_ok_facts p Hok) as F. destruct F as [pf_max0 pf_min0 pf_cn0 pf_cd0 pf_tn0 pf_td0 pf_base0 pf_rep0].
+  assert (Hrep : is_reporting_flag p f Reporting = true) by exact Hflag.
+  rewrite (in_dq_of_dataclass p f Reporting el cx fr n (or_introl Hrep)).
+  rewrite Hrep. cbn [sequence_of].
+  rewrite (compute_counts_reporting p fr pf_tn0 pf_td0).
+  assert (Hpos : forall d, span_of (complete fr) (f_rows fr) = Some d -> 1 <= d) by (intros d; apply span_of_pos).
+  apply or_iff_compat_r.
+  unfold violates_reporting_span_over_usage.
+  split.
+  - intros [k [Ho [Hin Hc]]]. apply pf_rep0 in Hin.
+    destruct n; simpl in Ho; try discriminate Ho; injection Ho as <-;
+      cbn [check_cond c_total c_valid c_meter c_temp negb andb] in Hc;
+      try (exfalso; destruct f; simpl in Hin; intuition discriminate).
+    + apply negb_true_iff in Hc. apply span_none_iff.
+      destruct (span_of (complete fr) (f_rows fr)); [discriminate Hc|reflexivity].
+    + apply (under_spec p _ _ pf_cn0 pf_cd0 Hpos). exact Hc.
+    + apply (under_spec p _ _ pf_cn0 pf_cd0 Hpos). exact Hc.
+    + apply (monthly_bad_spec p _ _ pf_cn0 pf_cd0). exact Hc.
+    + apply andb_true_iff in Hc. destruct Hc as [Hg Hm].
+      split; [destruct f; simpl in Hin; intuition discriminate|]. split; [exact Hg|].
+      apply (monthly_bad_spec p _ _ pf_cn0 pf_cd0). exact Hm.
+  - intro V.
+    destruct n; cbn [check_of]; try contradiction.
+    + exists CNoData. split; [reflexivity|]. split; [apply pf_rep0; destruct f; simpl; tauto|].
+      cbn [check_cond c_total]. apply span_none_iff in V. rewrite V. reflexivity.
+    + exists CValidDays. split; [reflexivity|]. split; [apply pf_rep0; destruct f; simpl; tauto|].
+      cbn [check_cond c_total c_valid]. apply (under_spec p _ _ pf_cn0 pf_cd0 Hpos). exact V.
+    + exists CValidTemp. split; [reflexivity|]. split; [apply pf_rep0; destruct f; simpl; tauto|].
+      cbn [check_cond c_total c_temp]. apply (under_spec p _ _ pf_cn0 pf_cd0 Hpos). exact V.
+    + exists CMonthlyTemp. split; [reflexivity|]. split; [apply pf_rep0; destruct f; simpl; tauto|].
+      cbn [check_cond]. apply (monthly_bad_spec p _ _ pf_cn0 pf_cd0). exact V.
+    + destruct V as [-> [Hg V]]. exists CMonthlyGhi. split; [reflexivity|]. split; [apply pf_rep0; simpl; tauto|].
+      cbn [check_cond]. rewrite Hg. cbn [andb]. apply (monthly_bad_spec p _ _ pf_cn0 pf_cd0). exact V.
+Qed.
+
+
 (* ------------------------------------------------------------------ the whole statement for the code as it is: partial + refuted *)
 
 (* what the statement demands of the six data classes, for the parameters the code has now *)
@@ -754,15 +830,16 @@ Definition guard (f : family) (w : period) (cx : ctx) (fr : frame) : Prop :=
   | Reporting => gen_reporting_flag f = true /\ usage_irrelevant fr
   end /\ (gen_offcycle_dq = false \/ f <> Billing \/ x_offcycle cx = false).
 
-Lemma statement_partial_l : forall f w el cx fr, guard f w cx fr -> statement_at f w el cx fr.
+Lemma statement_partial_l : params_ok code_params = true ->
+  forall f w el cx fr, guard f w cx fr -> statement_at f w el cx fr.
 Proof.
-  intros f w el cx fr [Hw Hoff]. unfold statement_at.
+  intros Hpub f w el cx fr [Hw Hoff]. unfold statement_at.
   assert (Hno : forall n, ~ (n = OffcycleReads /\ f = Billing /\ x_offcycle cx = true /\ gen_offcycle_dq = true)).
   { intros n [_ [Hb [Hx Hg]]]. destruct Hoff as [H|[H|H]]; congruence. }
   destruct w.
-  - destruct (baseline_dq_exact_code_l f el cx fr Hw) as [dq [ws [E [_ Hm]]]]. exists dq, ws. split; [exact E|].
+  - destruct (baseline_dq_exact_code_l Hpub f el cx fr Hw) as [dq [ws [E [_ Hm]]]]. exists dq, ws. split; [exact E|].
     intro n. rewrite Hm. specialize (Hno n). tauto.
-  - destruct Hw as [Hf Hu]. destruct (reporting_dq_exact_code_l f el cx fr Hf Hu) as [dq [ws [E [_ Hm]]]].
+  - destruct Hw as [Hf Hu]. destruct (reporting_dq_exact_code_l Hpub f el cx fr Hf Hu) as [dq [ws [E [_ Hm]]]].
     exists dq, ws. split; [exact E|]. intro n. rewrite Hm. specialize (Hno n). tauto.
 Qed.
 
@@ -770,117 +847,123 @@ Qed.
 Definition ex_row (i : nat) (o : option Q) (t : bool) : row :=
   mkrow (86400 * Z.of_nat i) 1 o t (Some (if t then (1, 0) else (0, 1))) false true.
 Definition ex_full (n : nat) : list row := map (fun i => ex_row i (Some (5 # 1)%Q) true) (seq 0 n).
-(* usage present on the first k rows only *)
-Definition ex_partial (n k : nat) : list row :=
-  map (fun i => ex_row i (if Nat.ltb i k then Some (5 # 1)%Q else None) true) (seq 0 n).
 (* temperature missing on rows a .. a+k-1 *)
 Definition ex_temp_gap (n a k : nat) (o : option Q) : list row :=
   map (fun i => ex_row i o (negb (Nat.leb a i && Nat.ltb i (a + k)))) (seq 0 n).
+(* no usage value on any row *)
+Definition ex_no_usage (n : nat) : list row := map (fun i => ex_row i None true) (seq 0 n).
 Definition cx0 : ctx := mkctx false false false.
 Definition cx_off : ctx := mkctx false false true.
 
-(* (1) a baseline without any usage: the data class drops the column and the criteria class raises *)
-Lemma refuted_no_usage_l :
-  dataclass code_params Daily Baseline true cx0 (mkframe false false (map (fun i => ex_row i None true) (seq 0 340)))
-  = Raised AttributeError.
+(* (1) a baseline without any usage: the data class drops the column and the criteria class raises (C10-F3) *)
+Lemma refuted_no_usage_l : forall p f el cx rows,
+  dataclass p f Baseline el cx (mkframe false false rows) = Raised AttributeError.
 Proof. reflexivity. Qed.
 
-(* (2) off-cycle billing reads change the verdict (when they are appended to .disqualification) *)
-Lemma refuted_offcycle_l : gen_offcycle_dq = true ->
-  In OffcycleReads (dq_of (dataclass code_params Billing Baseline true cx_off (mkframe true false (ex_full 340)))) /\
-  dq_of (dataclass code_params Billing Baseline true cx0 (mkframe true false (ex_full 340))) = [] /\
-  ~ violates_baseline Billing true (mkframe true false (ex_full 340)) OffcycleReads.
+Lemma statement_refuted_l : ~ (forall f w el cx fr, statement_at f w el cx fr).
 Proof.
-  intro H. split; [|split].
-  - assert (E : dq_of (dataclass code_params Billing Baseline true cx_off (mkframe true false (ex_full 340)))
-               = if gen_offcycle_dq then [OffcycleReads] else []) by (vm_compute; reflexivity).
-    rewrite E, H. left. reflexivity.
-  - vm_compute. reflexivity.
+  intro S. destruct (S Daily Baseline true cx0 (mkframe false false (ex_no_usage 340))) as [dq [ws [E _]]].
+  rewrite refuted_no_usage_l in E. discriminate E.
+Qed.
+
+(* (2) off-cycle billing reads change the verdict when they are appended to .disqualification (C10-F1) *)
+Lemma refuted_offcycle_l : forall p el fr, params_ok p = true -> p_offcycle_dq p = true -> f_has_obs fr = true ->
+  In OffcycleReads (dq_of (dataclass p Billing Baseline el cx_off fr)) /\
+  ~ In OffcycleReads (dq_of (dataclass p Billing Baseline el cx0 fr)) /\
+  ~ violates_baseline Billing el fr OffcycleReads.
+Proof.
+  intros p el fr Hok Hoff Hobs. split; [|split].
+  - apply (baseline_membership p Billing el cx_off fr OffcycleReads Hok Hobs). right. split; [reflexivity|].
+    unfold offcycle_dq. rewrite Hoff. reflexivity.
+  - intro H. apply (baseline_membership p Billing el cx0 fr OffcycleReads Hok Hobs) in H.
+    destruct H as [H|[_ H]]; [exact H|discriminate H].
   - intro V. exact V.
 Qed.
 
-(* (3) hourly reporting data without usage, temperature complete: reported as "no data" *)
-Lemma refuted_hourly_reporting_l : gen_reporting_flag Hourly = false ->
-  let fr := mkframe true false (map (fun i => ex_row i None true) (seq 0 340)) in
-  In NoData (dq_of (dataclass code_params Hourly Reporting true cx0 fr)) /\ ~ violates_reporting Hourly fr NoData.
+(* (3) hourly reporting data without usage, temperature complete: reported as "no data" when the criteria class is
+   not told that the data is reporting data (C10-F2) *)
+Lemma hourly_reporting_no_usage_l : forall p el cx n, (0 < n)%nat ->
+  params_ok p = true -> p_reporting_flag p Hourly = false ->
+  let fr := mkframe true false (ex_no_usage n) in
+  In NoData (dq_of (dataclass p Hourly Reporting el cx fr)) /\ ~ violates_reporting Hourly fr NoData.
 Proof.
-  intro H. cbn zeta. split.
-  - assert (E : dq_of (dataclass code_params Hourly Reporting true cx0
-                         (mkframe true false (map (fun i => ex_row i None true) (seq 0 340))))
-               = if gen_reporting_flag Hourly then [] else [NoData; TooManyDaysMissingData; TooManyDaysMissingTemperature])
-      by (vm_compute; reflexivity).
-    rewrite E, H. left. reflexivity.
-  - intro V. cbn [violates_reporting] in V.
-    specialize (V (ex_row 0 None true)). cbn [f_rows] in V.
-    assert (Hin : In (ex_row 0 None true) (map (fun i => ex_row i None true) (seq 0 340))).
-    { apply in_map_iff. exists 0%nat. split; [reflexivity|]. apply in_seq. lia. }
-    specialize (V Hin). vm_compute in V. discriminate V.
+  intros p el cx n Hn Hok Hflag. cbn zeta. split.
+  - apply (hourly_reporting_as_coded_l p el cx (mkframe true false (ex_no_usage n)) NoData Hok Hflag eq_refl).
+    cbn [violates_reporting_as_baseline f_rows]. intros r Hin. unfold ex_no_usage in Hin.
+    apply in_map_iff in Hin. destruct Hin as [i [<- _]]. reflexivity.
+  - intro V. cbn [violates_reporting f_rows] in V.
+    assert (Hin : In (ex_row 0 None true) (ex_no_usage n)).
+    { unfold ex_no_usage. apply in_map_iff. exists 0%nat. split; [reflexivity|]. apply in_seq. lia. }
+    specialize (V _ Hin). discriminate V.
 Qed.
 
 (* (4) daily reporting data, usage on the first 100 of 300 days, temperature missing on 31 days: the criteria say
-   "under 90 % of days with valid temperature" (268 of 300), the code measures against the 100 days with usage *)
+   "under 90 % of days with valid temperature" (268 of 300), the code measures against the 100 days with usage (C10-F4) *)
 Definition ex_rep_partial : frame :=
   mkframe true false
     (map (fun i => ex_row i (if Nat.ltb i 100 then Some (5 # 1)%Q else None) (negb (Nat.leb 150 i && Nat.ltb i 181))) (seq 0 300)).
 
-Lemma refuted_reporting_partial_usage_l :
-  dq_of (dataclass code_params Daily Reporting true cx0 ex_rep_partial) = [MissingMonthlyTemperature] /\
-  violates_reporting Daily ex_rep_partial TooManyDaysMissingTemperature.
+Lemma reporting_partial_usage_gen : forall p f el cx fr d1 d2 k, params_ok p = true -> p_reporting_flag p f = true ->
+  span_of (complete fr) (f_rows fr) = Some d1 -> span_of (has_data_reporting fr) (f_rows fr) = Some d2 ->
+  whole_days temp_valid90 (f_rows fr) = k -> 9 * d1 <= 10 * k -> 10 * k < 9 * d2 ->
+  ~ In TooManyDaysMissingTemperature (dq_of (dataclass p f Reporting el cx fr)) /\
+  violates_reporting f fr TooManyDaysMissingTemperature.
 Proof.
-  split; [vm_compute; reflexivity|].
-  unfold violates_reporting, under90.
-  assert (E : span_of (has_data_reporting ex_rep_partial) (f_rows ex_rep_partial) = Some 300) by (vm_compute; reflexivity).
-  assert (E2 : whole_days temp_valid90 (f_rows ex_rep_partial) = 268) by (vm_compute; reflexivity).
-  rewrite E, E2. lia.
+  intros p f el cx fr d1 d2 k Hok Hflag E1 E3 E2 H1 H2. split.
+  - intro H. apply (reporting_as_coded_l p f el cx fr _ Hok Hflag) in H.
+    destruct H as [H|[H _]]; [|discriminate H].
+    unfold violates_reporting_span_over_usage in H. rewrite E1, E2 in H. unfold under90 in H. lia.
+  - unfold violates_reporting. rewrite E3, E2. unfold under90. exact H2.
 Qed.
 
-Lemma statement_refuted_l : ~ (forall f w el cx fr, statement_at f w el cx fr).
+Lemma ex_rep_partial_facts :
+  span_of (complete ex_rep_partial) (f_rows ex_rep_partial) = Some 100 /\
+  span_of (has_data_reporting ex_rep_partial) (f_rows ex_rep_partial) = Some 300 /\
+  whole_days temp_valid90 (f_rows ex_rep_partial) = 268.
+Proof. vm_compute. repeat split. Qed.
+
+Lemma reporting_partial_usage_l : forall p f el cx, params_ok p = true -> p_reporting_flag p f = true ->
+  ~ In TooManyDaysMissingTemperature (dq_of (dataclass p f Reporting el cx ex_rep_partial)) /\
+  violates_reporting f ex_rep_partial TooManyDaysMissingTemperature.
 Proof.
-  intro S. destruct (S Daily Baseline true cx0 (mkframe false false (map (fun i => ex_row i None true) (seq 0 340))))
-    as [dq [ws [E _]]].
-  rewrite refuted_no_usage_l in E. discriminate E.
+  intros p f el cx Hok Hflag. destruct ex_rep_partial_facts as [E1 [E3 E2]].
+  exact (reporting_partial_usage_gen p f el cx ex_rep_partial 100 300 268 Hok Hflag E1 E3 E2 ltac:(lia) ltac:(lia)).
 Qed.
 
-(* ------------------------------------------------------------------ non-vacuity witnesses *)
+(* ------------------------------------------------------------------ non-vacuity witnesses (the statement's own parameters) *)
 
 (* a 340-day baseline with everything present: qualified; the guard holds *)
 Lemma ex_baseline_clean : guard Daily Baseline cx0 (mkframe true false (ex_full 340)) /\
-  dataclass code_params Daily Baseline false cx0 (mkframe true false (ex_full 340)) = Accepted [] [].
+  dataclass published Daily Baseline false cx0 (mkframe true false (ex_full 340)) = Accepted [] [].
 Proof. split; [split; [reflexivity|right; left; discriminate]|vm_compute; reflexivity]. Qed.
 
 (* 340 days, temperature missing on 34 days: 305 valid whole days of 340 -> under 90 %; on 33 days: 306 -> exactly 90 %, passes *)
 Lemma ex_baseline_threshold :
-  dq_of (dataclass code_params Daily Baseline false cx0 (mkframe true false (ex_temp_gap 340 100 34 (Some (5 # 1)%Q))))
+  dq_of (dataclass published Daily Baseline false cx0 (mkframe true false (ex_temp_gap 340 100 34 (Some (5 # 1)%Q))))
   = [TooManyDaysMissingData; TooManyDaysMissingTemperature] /\
-  dq_of (dataclass code_params Daily Baseline false cx0 (mkframe true false (ex_temp_gap 340 100 33 (Some (5 # 1)%Q))))
+  dq_of (dataclass published Daily Baseline false cx0 (mkframe true false (ex_temp_gap 340 100 33 (Some (5 # 1)%Q))))
   = [] /\
   whole_days temp_valid90 (ex_temp_gap 340 100 33 (Some (5 # 1)%Q)) = 306.
 Proof. split; [|split]; vm_compute; reflexivity. Qed.
 
 (* span limits: 328 days too short, 329 and 365 accepted, 366 too long *)
 Lemma ex_span_limits :
-  map (fun n => dq_of (dataclass code_params Daily Baseline true cx0 (mkframe true false (ex_full n)))) [328; 329; 365; 366]%nat
+  map (fun n => dq_of (dataclass published Daily Baseline true cx0 (mkframe true false (ex_full n)))) [328; 329; 365; 366]%nat
   = [[IncorrectNumberOfTotalDays]; []; []; [IncorrectNumberOfTotalDays]].
 Proof. vm_compute. reflexivity. Qed.
 
-(* reporting data: 300 days, temperature missing on 31 days, no usage column: the guard holds and both 90 % criteria fire *)
-Lemma ex_reporting : guard Daily Reporting cx0 (mkframe false false (ex_temp_gap 300 150 31 None)) \/ gen_reporting_flag Daily = false.
-Proof.
-  destruct (gen_reporting_flag Daily) eqn:E; [left|right; reflexivity].
-  split; [split; [exact E|left; reflexivity]|right; left; discriminate].
-Qed.
-
 Lemma ex_reporting_verdict :
+  usage_irrelevant (mkframe false false (ex_temp_gap 300 150 31 None)) /\
   dq_of (dataclass published Daily Reporting true cx0 (mkframe false false (ex_temp_gap 300 150 31 None)))
   = [TooManyDaysMissingData; TooManyDaysMissingTemperature; MissingMonthlyTemperature].
-Proof. vm_compute. reflexivity. Qed.
+Proof. split; [left; reflexivity|vm_compute; reflexivity]. Qed.
 
 (* negative usage: disqualifies gas, not electricity; an extreme value only warns *)
 Definition ex_negative : list row :=
   map (fun i => ex_row i (Some (if Nat.eqb i 7 then (-3 # 1) else if Nat.eqb i 9 then (1000 # 1) else (5 # 1))%Q) true) (seq 0 340).
 Lemma ex_negative_verdicts :
-  dataclass code_params Daily Baseline false cx0 (mkframe true false ex_negative) = Accepted [NegativeMeterValues] [ExtremeValues] /\
-  dataclass code_params Daily Baseline true cx0 (mkframe true false ex_negative) = Accepted [] [ExtremeValues].
+  dataclass published Daily Baseline false cx0 (mkframe true false ex_negative) = Accepted [NegativeMeterValues] [ExtremeValues] /\
+  dataclass published Daily Baseline true cx0 (mkframe true false ex_negative) = Accepted [] [ExtremeValues].
 Proof. split; vm_compute; reflexivity. Qed.
 
 Lemma ex_same_shape : Forall2 same_shape ex_negative
@@ -893,6 +976,13 @@ Proof.
   destruct (Nat.eqb i 7); [split; intros _; reflexivity|].
   destruct (Nat.eqb i 9); split; intro H; vm_compute in H; discriminate H.
 Qed.
+
+Lemma ex_as_coded : params_ok as_coded = true /\ p_reporting_flag as_coded Hourly = false /\ p_offcycle_dq as_coded = true /\
+  dq_of (dataclass as_coded Hourly Reporting true cx0 (mkframe true false (ex_no_usage 340)))
+  = [NoData; TooManyDaysMissingData; TooManyDaysMissingTemperature] /\
+  dq_of (dataclass as_coded Daily Reporting true cx0 ex_rep_partial) = [MissingMonthlyTemperature] /\
+  dq_of (dataclass as_coded Billing Baseline true cx_off (mkframe true false (ex_full 340))) = [OffcycleReads].
+Proof. repeat split; vm_compute; reflexivity. Qed.
 
 (* ------------------------------------------------------------------ the frames of the correspondence *)
 
@@ -921,3 +1011,4 @@ Proof.
   - apply Z.mod_mul. lia.
   - rewrite Z.div_mul by lia. reflexivity.
 Qed.
+
